@@ -5,7 +5,7 @@ From Redress Require Import Base Window Budget Runner Corr RunnerProofs RunnerSp
 (** one emitted event, before it is fanned out to the sinks *)
 Record report := {
   r_name : evname; r_att : Z; r_sleep : Z; r_class : option klass; r_err : bool;
-  r_stop : option stop; r_cause : option cause; r_ra : option Z }.
+  r_stop : option stop; r_cause : option cause; r_ra : option hint }.
 
 Definition emit_rep (c : cfg) (r : report) : list ev :=
   emit_evs c (r_name r) (r_att r) (r_sleep r) (r_class r) (r_err r) (r_stop r) (r_cause r) (r_ra r).
